@@ -3,6 +3,7 @@
  */
 
 #pragma once
+#include "verif_hooks.h"
 
 #include <utility>
 
@@ -107,6 +108,7 @@ retry_find_border:
          */
         node_version64_body nv = std::get<1>(node_and_v);
         if (!(nv.get_root() && nv.get_deleted())) {
+            YK_WAIT(YK_W_RETRY, nullptr);
             goto retry_from_root; // NOLINT
         }
     }
@@ -129,6 +131,7 @@ retry_fetch_lv:
          * It may be change the correct border between atomically fetching border node and
          * atomically fetching lv.
          */
+        YK_WAIT(YK_W_RETRY, nullptr);
         goto retry_from_root; // NOLINT
     }
     if (lv_ptr == nullptr) {
@@ -143,6 +146,7 @@ retry_fetch_lv:
              * atomically fetching border and lock.
              */
             target_border->version_unlock();
+            YK_WAIT(YK_W_RETRY, nullptr);
             goto retry_from_root; // NOLINT
         }
         /**
@@ -183,6 +187,7 @@ retry_fetch_lv:
                 target_border->get_version_vsplit() != v_at_fb.get_vsplit()) {
                 // maybe wrong node
                 target_border->version_unlock();
+                YK_WAIT(YK_W_RETRY, nullptr);
                 goto retry_from_root; // NOLINT
             }
             if (target_border->get_version_vinsert_delete() !=
@@ -226,6 +231,7 @@ retry_fetch_lv:
              !target_border->get_version_root()) ||
             target_border->get_version_vsplit() != v_at_fb.get_vsplit()) {
             // maybe wrong node
+            YK_WAIT(YK_W_RETRY, nullptr);
             goto retry_from_root; // NOLINT
         }
         if (target_border->get_version_vinsert_delete() !=
@@ -246,6 +252,7 @@ retry_fetch_lv:
          !final_check.get_root()) || // this border was deleted.
         final_check.get_vsplit() !=
                 v_at_fb.get_vsplit()) { // this border may be incorrect.
+        YK_WAIT(YK_W_RETRY, nullptr);
         goto retry_from_root;           // NOLINT
     }
     /**
